@@ -21,7 +21,9 @@ import (
 	"time"
 
 	"github.com/janelia-flyem/dvid/datatype/common/labels"
+	"github.com/janelia-flyem/dvid/datatype/common/proto"
 	"github.com/janelia-flyem/dvid/dvid"
+	pb "google.golang.org/protobuf/proto"
 
 	"verif/harness/dvh"
 	"verif/harness/lib"
@@ -43,11 +45,16 @@ type ev struct {
 	Start uint64   `json:"start,omitempty"`
 	BMs   []uint64 `json:"bms,omitempty"`
 	Ls    []uint64 `json:"ls,omitempty"` // lmmerge: target then merged bodies; cleave: body then supervoxels
+	// index: Ls = body label then its supervoxels; indices: one [body label, supervoxels...] per entry
+	Batch [][]uint64 `json:"batch,omitempty"`
 }
 
 type jcase struct {
 	Kind string `json:"kind"` // mutid | labels | race | ids
 	Evs  []ev   `json:"evs"`
+	// server configuration of every start of an ids history (datastore.Config.InstanceStart, the
+	// "instance_id_start" of the TOML file); 0 = not configured.  A restart event may carry its own.
+	InstStart uint64 `json:"inststart,omitempty"`
 	// set when executions of this history disagreed: the Coq term of the first execution
 	FirstOutcome string `json:"first_outcome,omitempty"`
 }
@@ -337,8 +344,12 @@ func runLabels(c jcase) outcome {
 			var r struct{ Start, End uint64 }
 			json.Unmarshal(body, &r)
 			lev = append(lev, fmt.Sprintf("LAlloc %d %d", curV, e.N))
-			if st == 200 && e.N > 0 {
-				obs = append(obs, fmt.Sprintf("(%d, %d)", r.Start, r.End))
+			if e.N > 0 {
+				if st == 200 {
+					obs = append(obs, fmt.Sprintf("Some (%d, %d)", r.Start, r.End))
+				} else {
+					obs = append(obs, "None") // refused
+				}
 			}
 		case "alloccrash":
 			if !up || e.N == 0 {
@@ -389,6 +400,44 @@ func runLabels(c jcase) outcome {
 			}
 			p.Post(fmt.Sprintf("/api/node/%s/lm/maxlabel/%d", cur, e.N), nil)
 			lev = append(lev, fmt.Sprintf("LSetMax %d %d", curV, e.N))
+		case "index", "indices":
+			// label indices posted directly (POST index/<label>, POST indices): every body label they
+			// introduce is a label of the volume from then on
+			if !up {
+				continue
+			}
+			mk := func(ent []uint64) *proto.LabelIndex {
+				idx := &proto.LabelIndex{Label: ent[0], Blocks: map[uint64]*proto.SVCount{}}
+				svc := &proto.SVCount{Counts: map[uint64]uint32{}}
+				for _, sv := range ent[1:] {
+					svc.Counts[sv] = 10
+				}
+				idx.Blocks[labels.EncodeBlockIndex(int32(z), 7, 7)] = svc
+				return idx
+			}
+			z++
+			if e.K == "index" {
+				if len(e.Ls) < 2 {
+					continue
+				}
+				ser, _ := pb.Marshal(mk(e.Ls))
+				if st, _, _ := p.Post(fmt.Sprintf("/api/node/%s/lm/index/%d", cur, e.Ls[0]), ser); st == 200 {
+					lev = append(lev, fmt.Sprintf("LSetMax %d %d", curV, e.Ls[0]))
+				}
+			} else {
+				batch := &proto.LabelIndices{}
+				var mx uint64
+				for _, ent := range e.Batch {
+					if len(ent) >= 2 {
+						batch.Indices = append(batch.Indices, mk(ent))
+						mx = maxU(mx, ent[0])
+					}
+				}
+				ser, _ := pb.Marshal(batch)
+				if st, _, _ := p.Post("/api/node/"+cur+"/lm/indices", ser); st == 200 && len(batch.Indices) > 0 {
+					lev = append(lev, fmt.Sprintf("LSetMax %d %d", curV, mx))
+				}
+			}
 		case "newchild":
 			if !up {
 				continue
@@ -414,7 +463,7 @@ func runLabels(c jcase) outcome {
 				json.Unmarshal(body, &r)
 				// the cleaved body gets a new label (an allocation), then both indices are stored
 				lev = append(lev, fmt.Sprintf("LAlloc %d 1", curV), fmt.Sprintf("LSetMax %d %d", curV, r.CleavedLabel), fmt.Sprintf("LSetMax %d %d", curV, e.Ls[0]))
-				obs = append(obs, fmt.Sprintf("(%d, %d)", r.CleavedLabel, r.CleavedLabel))
+				obs = append(obs, fmt.Sprintf("Some (%d, %d)", r.CleavedLabel, r.CleavedLabel))
 			}
 		case "crash":
 			if up {
@@ -479,7 +528,7 @@ func runIDs(c jcase) outcome {
 	counts := map[string]int{}
 	dir := freshDir()
 	defer os.RemoveAll(dir)
-	p := mustStart(dvh.Opts{Dir: dir})
+	p := mustStart(dvh.Opts{Dir: dir, InstStart: c.InstStart})
 	up := true
 	type repoInfo struct {
 		Root  string
@@ -606,12 +655,41 @@ func runIDs(c jcase) outcome {
 				up = false
 				trace = append(trace, "kill")
 			}
+		case "deldata":
+			// delete the newest instance that still exists (its id must never be handed out again)
+			if !up {
+				continue
+			}
+			var root, name string
+			for _, ri := range view() {
+				for nm := range ri.DataInstances {
+					if name == "" || len(nm) > len(name) || (len(nm) == len(name) && nm > name) {
+						root, name = ri.Root, nm
+					}
+				}
+			}
+			if name != "" {
+				m0, d0 := p.WritesDone()
+				p.Call("deldata", root, name)
+				for i := 0; i < 1000; i++ {
+					if m, d := p.WritesDone(); (m > m0 && d > d0) || p.Dead {
+						break
+					}
+					time.Sleep(5 * time.Millisecond)
+				}
+				delete(seenI, root+name)
+				trace = append(trace, "deldata")
+			}
 		case "restart":
 			if !up {
-				p = mustStart(dvh.Opts{Dir: dir})
+				is := c.InstStart
+				if e.Start != 0 {
+					is = e.Start
+				}
+				p = mustStart(dvh.Opts{Dir: dir, InstStart: is})
 				up = true
 				collect()
-				trace = append(trace, "restart")
+				trace = append(trace, fmt.Sprintf("restart(%d)", is))
 			}
 		}
 	}
@@ -684,7 +762,24 @@ func genLabels(rng *lib.Rand) jcase {
 		case 3:
 			ingest(1 + rng.Intn(3))
 		case 4:
-			c.Evs = append(c.Evs, ev{K: "setmax", N: uint64(rng.Intn(int(top) + 50))})
+			switch rng.Intn(3) {
+			case 0:
+				c.Evs = append(c.Evs, ev{K: "setmax", N: uint64(rng.Intn(int(top) + 50))})
+			case 1:
+				// an index for a new body whose label is above everything so far, made of old supervoxels
+				top += uint64(1 + rng.Intn(40))
+				c.Evs = append(c.Evs, ev{K: "index", Ls: []uint64{top, uint64(1 + rng.Intn(5)), uint64(1 + rng.Intn(int(top)))}})
+			default:
+				var batch [][]uint64
+				for j := 0; j < 1+rng.Intn(3); j++ {
+					top += uint64(1 + rng.Intn(40))
+					batch = append(batch, []uint64{top, uint64(1 + rng.Intn(5))})
+				}
+				// the largest body label is not the last entry, nor the one with the largest supervoxel
+				batch = append(batch, []uint64{uint64(1 + rng.Intn(3)), uint64(1 + rng.Intn(3)), uint64(4 + rng.Intn(3))})
+				c.Evs = append(c.Evs, ev{K: "indices", Batch: batch})
+			}
+			c.Evs = append(c.Evs, ev{K: "alloc", N: uint64(1 + rng.Intn(70))})
 		case 5:
 			c.Evs = append(c.Evs, ev{K: "alloccrash", N: uint64(1 + rng.Intn(4)), W: rng.Intn(3)}, ev{K: "restart"})
 		case 6:
@@ -718,19 +813,60 @@ func genLabels(rng *lib.Rand) jcase {
 	return c
 }
 
+// genLabelsEdge: allocation near the end of the 64-bit label space
+func genLabelsEdge(rng *lib.Rand) jcase {
+	c := jcase{Kind: "labels"}
+	c.Evs = append(c.Evs, ev{K: "ingest", BMs: []uint64{uint64(1 + rng.Intn(50))}}, ev{K: "alloc", N: uint64(1 + rng.Intn(3))})
+	top := ^uint64(0)
+	edge := []uint64{top, top - 1, top - 2, top - 5, top - 100, 1 << 63, 1<<63 - 1}[rng.Intn(7)]
+	switch rng.Intn(3) {
+	case 0:
+		c.Evs = append(c.Evs, ev{K: "setmax", N: edge})
+	case 1:
+		c.Evs = append(c.Evs, ev{K: "index", Ls: []uint64{edge, 1}})
+	default:
+		c.Evs = append(c.Evs, ev{K: "ingest", BMs: []uint64{edge}})
+	}
+	for i := 0; i < 3+rng.Intn(4); i++ {
+		switch rng.Intn(5) {
+		case 0:
+			c.Evs = append(c.Evs, ev{K: "crash"}, ev{K: "restart"})
+		case 1:
+			c.Evs = append(c.Evs, ev{K: "newchild"})
+		default:
+			c.Evs = append(c.Evs, ev{K: "alloc", N: uint64(rng.Pick(1, 1, 2, 3, 5, 6, 101, 200))})
+		}
+	}
+	return c
+}
+
 func genIDs(rng *lib.Rand) jcase {
 	c := jcase{Kind: "ids", Evs: []ev{{K: "newrepo"}}}
+	// half of the histories run with a configured first instance id, as a server with
+	// instance_id_gen = "sequential", instance_id_start = N does
+	if rng.Bool() {
+		c.InstStart = uint64(rng.Pick(2, 7, 100, 100, 5000))
+	}
 	n := 8 + rng.Intn(8)
 	for i := 0; i < n; i++ {
-		switch rng.Intn(7) {
+		switch rng.Intn(9) {
 		case 0:
 			c.Evs = append(c.Evs, ev{K: "newrepo"})
-		case 1, 2:
+		case 1, 2, 3:
 			c.Evs = append(c.Evs, ev{K: "newdata"})
-		case 3, 4:
+		case 4:
 			c.Evs = append(c.Evs, ev{K: "newversion"})
 		case 5:
 			c.Evs = append(c.Evs, ev{K: "killat", N: uint64(rng.Intn(3)), W: 1 + rng.Intn(4)}, ev{K: "restart"})
+		case 6, 7:
+			// an instance goes away, then the server restarts (same or another configured start), then
+			// a new instance is created
+			c.Evs = append(c.Evs, ev{K: "deldata"}, ev{K: "crash"})
+			r := ev{K: "restart"}
+			if c.InstStart != 0 && rng.Chance(0.3) {
+				r.Start = uint64(rng.Pick(1, 3, int(c.InstStart)+1, int(c.InstStart)+50))
+			}
+			c.Evs = append(c.Evs, r, ev{K: "newdata"})
 		default:
 			c.Evs = append(c.Evs, ev{K: "crash"}, ev{K: "restart"})
 		}
@@ -786,6 +922,17 @@ func main() {
 		{K: "lmmerge", Ls: []uint64{20, 10}}, {K: "alloc", N: 1}, {K: "cleave", Ls: []uint64{20, 10}}, {K: "alloc", N: 1},
 		{K: "newchild"}, {K: "setmax", N: 7}, {K: "alloc", N: 2}, {K: "newchild"}, {K: "lmmerge", Ls: []uint64{100, 20}}, {K: "alloc", N: 1},
 		{K: "crash"}, {K: "restart"}, {K: "alloc", N: 1}}})
+	// every route that introduces labels, each followed by an allocation
+	dispatch(jcase{Kind: "labels", Evs: []ev{{K: "ingest", BMs: []uint64{3}}, {K: "indices", Batch: [][]uint64{{2, 2, 4}, {50, 3}}}, {K: "alloc", N: 60},
+		{K: "index", Ls: []uint64{500, 1, 2}}, {K: "alloc", N: 1}, {K: "setmax", N: 900}, {K: "alloc", N: 2}, {K: "crash"}, {K: "restart"}, {K: "alloc", N: 1}}})
+	// the end of the label space: served requests stay below 2^64, the others are refused
+	dispatch(jcase{Kind: "labels", Evs: []ev{{K: "ingest", BMs: []uint64{7}}, {K: "setmax", N: ^uint64(0) - 5}, {K: "alloc", N: 2}, {K: "alloc", N: 4}, {K: "alloc", N: 3},
+		{K: "alloc", N: 1}, {K: "alloc", N: 1}, {K: "crash"}, {K: "restart"}, {K: "alloc", N: 2}}})
+	dispatch(jcase{Kind: "labels", Evs: []ev{{K: "setmax", N: ^uint64(0)}, {K: "alloc", N: 1}, {K: "alloc", N: 5}, {K: "newchild"}, {K: "alloc", N: 2}}})
+	// instance ids under a configured start, an instance deleted before the restart
+	dispatch(jcase{Kind: "ids", InstStart: 100, Evs: []ev{{K: "newrepo"}, {K: "newdata"}, {K: "newdata"}, {K: "newdata"}, {K: "deldata"},
+		{K: "crash"}, {K: "restart"}, {K: "newdata"}, {K: "deldata"}, {K: "deldata"}, {K: "crash"}, {K: "restart", Start: 50}, {K: "newdata"},
+		{K: "crash"}, {K: "restart", Start: 400}, {K: "newdata"}, {K: "crash"}, {K: "restart"}, {K: "newdata"}}})
 	nm, nl, ni, rounds := 3, 3, 3, 30
 	if o.Thorough() {
 		nm, nl, ni, rounds = 25, 25, 25, 300
@@ -798,6 +945,7 @@ func main() {
 	}
 	for i := 0; i < nl; i++ {
 		dispatch(genLabels(rng))
+		dispatch(genLabelsEdge(rng))
 	}
 	for i := 0; i < ni; i++ {
 		dispatch(genIDs(rng))
